@@ -388,7 +388,7 @@ struct WorkerOut {
     stderr_tail: String,
 }
 
-fn run_worker(id: &str, tier: Tier, i: u64, n: u64, trace_file: Option<&Path>) -> WorkerOut {
+fn run_worker(id: &str, tier: Tier, i: u64, n: u64, trace_file: Option<&Path>, hard_limit: Duration) -> WorkerOut {
     let exe = std::env::current_exe().expect("current_exe");
     let mut cmd = Command::new(exe);
     cmd.arg(id)
@@ -408,6 +408,7 @@ fn run_worker(id: &str, tier: Tier, i: u64, n: u64, trace_file: Option<&Path>) -
         }
     }
     let mut child = cmd.spawn().expect("spawn worker");
+    let hard_deadline = Instant::now() + hard_limit;
     let stderr = child.stderr.take().unwrap();
     let err_thread = std::thread::spawn(move || {
         let mut s = String::new();
@@ -415,24 +416,47 @@ fn run_worker(id: &str, tier: Tier, i: u64, n: u64, trace_file: Option<&Path>) -
         s
     });
     let stdout = child.stdout.take().unwrap();
-    let mut failures = Vec::new();
-    let mut stats = None;
-    for line in BufReader::new(stdout).lines() {
-        let Ok(line) = line else { break };
-        let Ok(v) = serde_json::from_str::<Value>(&line) else {
-            continue;
-        };
-        match v.get("t").and_then(|t| t.as_str()) {
-            Some("fail") => {
-                if let Ok(f) = serde_json::from_value::<Failure>(v["f"].clone()) {
-                    failures.push(f);
+    let out_thread = std::thread::spawn(move || {
+        let mut failures = Vec::new();
+        let mut stats = None;
+        for line in BufReader::new(stdout).lines() {
+            let Ok(line) = line else { break };
+            let Ok(v) = serde_json::from_str::<Value>(&line) else {
+                continue;
+            };
+            match v.get("t").and_then(|t| t.as_str()) {
+                Some("fail") => {
+                    if let Ok(f) = serde_json::from_value::<Failure>(v["f"].clone()) {
+                        failures.push(f);
+                    }
                 }
+                Some("stats") => stats = Some(v),
+                _ => {}
             }
-            Some("stats") => stats = Some(v),
-            _ => {}
         }
+        (failures, stats)
+    });
+    // watchdog: a worker that outlives its budget by far is hanging in the subject
+    let mut hung = false;
+    let status = loop {
+        match child.try_wait() {
+            Ok(Some(s)) => break format!("{s}"),
+            Ok(None) => {
+                if Instant::now() >= hard_deadline {
+                    let _ = child.kill();
+                    let _ = child.wait();
+                    hung = true;
+                    break "killed by the watchdog: no progress within the hard time limit (hang)".to_string();
+                }
+                std::thread::sleep(Duration::from_millis(20));
+            }
+            Err(e) => break format!("{e}"),
+        }
+    };
+    let (failures, mut stats) = out_thread.join().unwrap_or_default();
+    if hung {
+        stats = None;
     }
-    let status = child.wait().map(|s| format!("{s}")).unwrap_or_else(|e| format!("{e}"));
     let stderr = err_thread.join().unwrap_or_default();
     let tail: String = {
         let lines: Vec<&str> = stderr.lines().collect();
@@ -467,13 +491,15 @@ fn parent_main(engine: &dyn Engine, tier: Tier) -> ! {
     let n = engine.workers(default_workers).max(1) as u64;
 
     let trace_always = engine.trace_always();
+    // budget expiry is checked between cases; a worker needing three times its budget plus a minute is stuck inside one
+    let hard_limit = engine.budget(tier) * 3 + Duration::from_secs(60);
     let outs: Vec<WorkerOut> = std::thread::scope(|s| {
         let handles: Vec<_> = (0..n)
             .map(|i| {
                 let work = work.clone();
                 s.spawn(move || {
                     let tf = work.join(format!("trace.{i}"));
-                    let out = run_worker(id, tier, i, n, trace_always.then_some(tf.as_path()));
+                    let out = run_worker(id, tier, i, n, trace_always.then_some(tf.as_path()), hard_limit);
                     (i, out)
                 })
             })
@@ -524,7 +550,7 @@ fn parent_main(engine: &dyn Engine, tier: Tier) -> ! {
                 let mut status = out.status.clone();
                 let mut tail = out.stderr_tail.clone();
                 if !trace_always {
-                    let again = run_worker(id, tier, i as u64, n, Some(&tf));
+                    let again = run_worker(id, tier, i as u64, n, Some(&tf), hard_limit);
                     if again.stats.is_some() {
                         machinery_errors.push(format!(
                             "worker {i} died ({status}) but completed when re-run with tracing: {tail}"
